@@ -469,6 +469,12 @@ class VWebSocket:
         p = self.peer
         if self.closed_local or p.client_closed:
             raise OSError('websocket is closed')
+        k = getattr(p, 'nsend', 0)
+        p.nsend = k + 1
+        fa = getattr(p, 'fail_send_at', None)
+        if fa is not None and (k == fa or (k > fa and getattr(p, 'fail_send_persist', False))):
+            # the write fails (connection reset by the peer) - once, or from this frame on
+            raise OSError(104, 'Connection reset by peer')
         if p.vanished:
             p.lost.append(message)
         else:
@@ -478,6 +484,13 @@ class VWebSocket:
 
     def close(self):
         self.world.sched.point('ws.close')
+        if not self.closed_local and getattr(self.peer, 'fail_close', False):
+            self.closed_local = True
+            self.peer.server_closed = True
+            self.peer.t_server_closed = self.world.clock.now
+            for cb in getattr(self.peer, 'on_event', []):
+                cb()
+            raise OSError(104, 'Connection reset by peer')
         if not self.closed_local:
             self.closed_local = True
             self.peer.server_closed = True
